@@ -14,7 +14,7 @@ import (
 )
 
 // C14 — accepted queries are clean; validation is stable and decisive.
-// Engine E2: all strings of <=3 (quick) / <=4 (thorough) atoms over a 44-atom
+// Engine E2: all strings of <=3 (quick) / <=5 (thorough) atoms over a 44-atom
 // alphabet, run-length families around the byte-length boundaries, all limits
 // in [-300,300] plus corners.
 
@@ -164,7 +164,7 @@ func c14Families() []string {
 func c14Run(c *lib.Ctx) {
 	depth := 3
 	if c.Thorough() {
-		depth = 4
+		depth = 5
 	}
 	n := int64(len(c14Atoms))
 	idx := int64(0)
@@ -259,7 +259,7 @@ func c14Run(c *lib.Ctx) {
 func init() {
 	lib.Register(&lib.Check{
 		ID: "C14", Level: "model_checking",
-		Rule:      "every string of <=3 (quick) / <=4 (thorough) atoms over a 44-atom alphabet (ASCII, all Unicode spaces, controls, metacharacters and fullwidth twins of them, invalid UTF-8) plus run-length families atom^n·tail around 250/333/500/1000 bytes, each through ValidateQuery and re-validation; every limit in [-300,300] plus int corners (MaxInt/k, MinInt/k for k<=16 and all powers of two, each +-2) through ValidateLimit; non-trivial = rejected, or accepted with an output different from the input",
+		Rule:      "every string of <=3 (quick) / <=5 (thorough) atoms over a 44-atom alphabet (ASCII, all Unicode spaces, controls, metacharacters and fullwidth twins of them, invalid UTF-8) plus run-length families atom^n·tail around 250/333/500/1000 bytes, each through ValidateQuery and re-validation; every limit in [-300,300] plus int corners (MaxInt/k, MinInt/k for k<=16 and all powers of two, each +-2) through ValidateLimit; non-trivial = rejected, or accepted with an output different from the input",
 		Assume:    []string{"Unicode classes per Go's unicode tables", "acceptance of strings whose only content is invalid UTF-8 bytes is left undecided (either answer accepted)"},
 		QuickSecs: 60, ThorSecs: 600,
 		Run: c14Run,
